@@ -214,6 +214,12 @@ def compute_bounded(sess: Session):
 
 
 def run(sess: Session):
+    # hypernym walks are built on Synset._iter_*relations and get_synset_relations: the synsets they hand out must
+    # carry their own lexicon / ILI / Wordnet (sets of synsets and their hashes depend on it)
+    from contracts import coreflows as _cf, querychecks as _qc
+    _cf.run_flows(sess, PROP, {'Synset__iter_local_relations', 'Synset__iter_expanded_relations',
+                               'Synset__iter_relations'})     # shared_relation_contracts
+    _qc.run_result_checks(sess, PROP, {'get_synset_relations'})
     from contracts import C12 as _c12
     for _ob in _c12.placeholder_identity_obligations():
         _ob.prop = PROP          # seen-sets / path sets of synsets rely on it to keep inferred placeholders apart
@@ -231,5 +237,10 @@ def run(sess: Session):
                     sess.check(ob2)
         except Unsupported as exc:
             sess.unsupported(f'wn.ic:{part}', str(exc))
+    try:
+        for ob in _cf.find_helper_obligations(PROP):
+            sess.check(ob)
+    except Unsupported as exc:
+        sess.unsupported('wn._core._find_helper:flow', str(exc))
     compute_bounded(sess)
     load_bounded(sess)
